@@ -33,7 +33,7 @@ CLAIMED["C10"] = ("model_checking",
     "DESIGN.md 4/C10")
 
 # harness binaries each claimed property needs (setup builds exactly these)
-BINS = {"C17": ["store"], "C05": ["connmgr"], "C06": ["connmgr"], "C10": ["addrbook"]}
+BINS = {"C17": ["store"], "C05": ["connmgr", "netdial"], "C06": ["connmgr"], "C10": ["addrbook"]}
 
 NOT_YET = "check not built yet (work in progress, see DESIGN.md build order)"
 NA = {}
